@@ -165,5 +165,25 @@ def run(ctx, prog):
                         kk = flow.render(flow.Origin(rootb).of_local(ls[0]))
                 idx = sum(1 for x in ctx.instances if x['rule'] == 'C16.R3' and x['key'].startswith('C16.R3 | %s | index asked' % b.short.split('::{')[0]))
                 ctx.inst('C16.R3', b.short.split('::{')[0], 'index asked for compute_search_k(k, live, total) candidates #%d' % idx, bool(re.match(r'^hnsw_backend::compute_search_k\((arg|cap|var):k\b', kk)) or kk.startswith('hnsw_backend::compute_search_k('), 'k passed to the index: %s' % kk[:100])
+    # the caller's ef override reaches the index unchanged: the index applies its adaptive default beam (≥ 200, near-exhaustive for small indexes) only
+    # when the override is None, so turning None into Some(search_k) narrows the beam to the oversampled k as soon as one tombstone exists
+    for b in prog.bodies.values():
+        if not re.search(r'hnsw_backend::HnswBackend::knn_search\w*$', b.id.split('::{')[0]) or b.kind == 'Promoted':
+            continue
+        of = flow.Origin(b)
+        for c in b.calls:
+            if c.callee and re.search(r'HnswVectorIndex::knn_search_with_ef\w*$', c.callee) and len(c.args) > 3:
+                ef = flow.render(of.of_operand(c.args[3]))
+                idx = sum(1 for x in ctx.instances if x['rule'] == 'C16.R3' and x['key'].startswith('C16.R3 | %s | ef override' % b.short.split('::{')[0]))
+                ctx.inst('C16.R3', b.short.split('::{')[0], 'ef override handed to the index unchanged #%d' % idx, ef in ('arg:ef_search_override', 'cap:ef_search_override'), 'ef argument: %s' % ef[:100])
+    hi = ctx.body('C16.R3', 'HnswVectorIndex::knn_search_with_ef_cancel_impl')
+    if hi is not None:
+        hv = flow.Origin(hi, stop_at_vars=True)
+        efl = hi.var_local('ef_search')
+        efo = flow.render(flow.Origin(hi).of_local(efl[0])) if efl else ''
+        none_e = util.option_edges(hi, r'arg:ef_search_override$', 'None')
+        ctx.inst('C16.R3', hi.short, 'without an override the beam starts from the default 200 (raised for small indexes), with one it is clamped to [k, 10 000]',
+                 bool(none_e) and bool(re.search(r'Ord::clamp\(.*Ord::max\(arg:k, 1\), 10000\)|impls::clamp\(.*Ord::max\(arg:k, 1\), 10000\)|::clamp\(.*, Ord::max\(arg:k, 1\), 10000\)', efo)) and ('200' in efo),
+                 'ef_search = %s' % efo[:200])
     ctx.floor('C16.R3', 'index search calls in the backend', n_sk, 2, 'single and batch search')
     ctx.stat('functions_analysed', len(R))
